@@ -49,7 +49,7 @@ def opsRand : List (String × Rd (List String)) := [
     else pure (r.1.map hx32 ++ [toString (us.length - r.2.2.length)])),
   ("bm.seed", do
     let s ← int
-    pure [match ctorSeeds s with | none => "-1" | some v => toString v]),
+    pure [match ctorSeeds s with | none => "none" | some v => toString v]),
   ("lcg.seq", do
     let s ← int; let n ← nat
     pure ((lcgStates n (srand48 s)).map (fun x => hexOfFloat (lcgToFloat x)))),
